@@ -271,6 +271,16 @@ pub fn deep_chain(rng: &mut Rng, depth: u32) -> T {
     t
 }
 
+/// one player's ladder of `depth` consecutive stop/go decisions (own reach down to 2^-depth under
+/// uniform play), closed by a decision of the other player
+pub fn ladder(rng: &mut Rng, depth: u32) -> T {
+    let mut t = T::Player(false, 0, vec![(0, T::Term(rng.unit())), (1, T::Term(-rng.unit()))]);
+    for d in (0..depth).rev() {
+        t = T::Player(true, d, vec![(0, T::Term(rng.unit() * 2.0 - 1.0)), (1, t)]);
+    }
+    t
+}
+
 /// one infoset shared by many nodes behind an unobserved chance move
 pub fn wide_infoset(rng: &mut Rng, width: u32, acts: u32) -> T {
     T::Chance(
@@ -415,7 +425,8 @@ pub fn lottery(rng: &mut Rng) -> T {
 pub fn adversarial(rng: &mut Rng, i: u64) -> T {
     let (x, y) = (rng.below(60) as u32, rng.below(3) as u32);
     let z = rng.below(3) as u32;
-    match i % 10 {
+    match i % 11 {
+        10 => ladder(rng, 20 + x % 20),
         9 => lottery(rng),
         8 => double_decision(rng),
         0 => deep_chain(rng, 12 + x),
